@@ -238,7 +238,12 @@ def vc_setstate():
     X.attrs["_from_buffer"] = _Callable(from_buffer)
 
     def ov_reinit(i, st, f, a, k, n):
-        st.recorded = getattr(st, "recorded", []) + [("reinit", k.get("_xobject", a[0] if a else None))]
+        # contract of _reinit_from_xobject: installs the given xobject as the data object and re-dresses the nested parts around it
+        xo_ = k.get("_xobject", a[0] if a else None)
+        st.recorded = getattr(st, "recorded", []) + [("reinit", xo_)]
+        tgt = getattr(f, "bound_self", None) or getattr(f, "bound", None)
+        if tgt is not None:
+            i._relocate(st, tgt).attrs["_xobject"] = xo_
         yield st, None
     it.overrides[(HYB, "HybridClass._reinit_from_xobject")] = ov_reinit
     try:
